@@ -10,6 +10,7 @@ from hypothesis import strategies as st
 import pendulum
 import pendulum._helpers as PY
 import pendulum._pendulum as RS
+from vf import strategies as S
 from vf.core import Sub, req
 
 warnings.simplefilter("ignore")
@@ -161,7 +162,7 @@ class LocalTimeRandom(Sub):
     rule = "random seconds x offsets -86399..86399 x microseconds; non-trivial: negative timestamp or offset pushing across a day boundary"
 
     def strategy(self, ctx):
-        return st.fixed_dictionaries({"t": st.one_of(st.integers(LO, HI), st.integers(-10**10, 10**10)),
+        return st.fixed_dictionaries({"t": st.one_of(S.uni(LO, HI), S.uni(-10**10, 10**10)),
                                       "off": st.one_of(st.sampled_from([0, -86399, 86399, 3600, -3600, 19800]), st.integers(-86399, 86399)),
                                       "us": st.sampled_from([0, 1, 999999]) | st.integers(0, 999999)})
 
